@@ -1763,6 +1763,11 @@ pub fn work<C: Case, A: Automaton, const N: usize, const AN: u8, const IS_DFA: b
         let base = hay.as_ptr() as usize;
         assert!(lo == 0 || (lo >= base + s && hi <= base + e), "the prefilter scans bytes outside the span");
         cover!(lo != 0, "the prefilter scanned something");
+        // a start-byte prefilter's scans are disjoint pieces of the span (a candidate is consumed by the
+        // automaton before the next scan starts), so it examines every byte at most once - twice is the bound
+        if C::PF >= 1 && C::PF <= 3 {
+            assert!(memchr::model_scanned() <= 2 * (e - s) + 2, "a start-byte prefilter examines the span's bytes more than twice (candidate-free bytes are rescanned)");
+        }
     }
     assert!(tr <= e - s, "more than one automaton transition per byte of the span");
     assert!(nonmono == 0, "the search position does not advance monotonically");
@@ -1783,9 +1788,24 @@ pub fn work_ov<C: Case, A: Automaton, const N: usize, const IS_DFA: bool>(aut: &
     let hay: [u8; N] = any();
     let (s, e) = any_span(N);
     count::reset();
+    #[cfg(kani)]
+    memchr::model_scanned_reset();
     let mut st = OverlappingState::start();
     aut.try_find_overlapping(&Input::new(&hay[..]).span(s..e), &mut st).unwrap();
     let (tr, fl, nonmono) = count::read();
+    #[cfg(kani)]
+    {
+        let (same_start_run, decreases) = memchr::model_scan_order();
+        assert!(decreases == 0, "a prefilter scan starts before the previous one (searched bytes are rescanned)");
+        assert!(same_start_run <= 2, "the prefilter rescans from the same offset more than twice");
+        let (lo, hi) = memchr::model_scan_range();
+        let base = hay.as_ptr() as usize;
+        assert!(lo == 0 || (lo >= base + s && hi <= base + e), "the prefilter scans bytes outside the span");
+        if C::PF >= 1 && C::PF <= 3 {
+            assert!(memchr::model_scanned() <= 2 * (e - s) + 2, "a start-byte prefilter examines the span's bytes more than twice (candidate-free bytes are rescanned)");
+        }
+        cover!(lo != 0 && st.get_match().is_none(), "the prefilter scanned and nothing matched");
+    }
     assert!(tr <= e - s, "more than one automaton transition per byte of the span");
     assert!(nonmono == 0, "the search position does not advance monotonically");
     assert!(fl <= tr, "more failure-link traversals than transitions");
